@@ -17,6 +17,9 @@ claimed={
  "C17":dict(design="§7 C17",
    text="Bounded symbolic model checking of InterceptClientConn / interceptedChannel: wrapping depth, nil-ness of each interceptor per layer, forwarding vs short-circuiting, base channel kind, unary vs stream call and the method name are symbolic; assertions: every applicable interceptor exactly once outermost first, arguments and results unchanged, nil/nil returns the argument, Unwrap returns the wrapped channel, cc is the underlying *grpc.ClientConn at any depth.",
    note="Trusted: engine SSA semantics. Depth beyond the bound is outside the claim; a zero *grpc.ClientConn stands for a real connection (only its identity matters)."),
+ "C16":dict(design="§7 C16",
+   text="Bounded symbolic model checking of InterceptServer / WithInterceptor and of the interceptor hand-off in the in-process channel and the HTTP server: descriptor shape, streaming flags, nil-ness and behaviour (forward / short-circuit / fail / rewrite) of every interceptor, decoration depth and carrier are symbolic; the oracle is a recursive reference semantics of the chain (transport first, decorations outermost first, handler iff all forward; results and errors unchanged; FullMethod and flags correct; original description untouched; nil/nil returns the same pointer).",
+   note="Trusted: engine SSA semantics, context model, protobuf structural stubs, HTTP hop harness (RoundTripper + recording ResponseWriter, io.Pipe from real SSA). Handlers follow the generated shape. Non-preemptive schedules only (the hand-off is sequential per call)."),
 }
 pending_reason="check not built yet (engine layers under construction); see DESIGN.md §9"
 na={}
